@@ -1,6 +1,7 @@
 package main
 
 import (
+	"os"
 	"fmt"
 	"go/ast"
 	"go/constant"
@@ -37,6 +38,12 @@ func runC28(p *Prog, r *Result) {
 	r.Rule("R28c", "integers from the program reach indexes, slice bounds, make sizes and repeat counts only under a lower and an upper guard", 6)
 	r.Rule("R28e", "shifts by a signed, non-constant count and integer divisions by a non-constant divisor are dominated by the test that rules out the panicking value", 4)
 	r.Rule("R28g", "interface- and function-typed Runner fields used by code reachable from option closures are initialised by New's literal (options run before the default fallbacks)", 1)
+	r.Rule("R28j", "indexes at a constant position or constant offset on slices and strings in expand, pattern and interp are dominated by a test of that value's length, or are reasoned exceptions (the rule of C06 R06i)", 40)
+	for _, rel := range []string{"expand", "pattern", "interp"} {
+		if pk := p.Pkg(rel); pk != nil {
+			checkConstIndexes(p, r, pk, rel, "R28j", c28IndexExceptions)
+		}
+	}
 	r.Rule("R28h", "a variable's List is replaced only together with its Indexes (a sparse array's index list must stay parallel to its values, or lookups index past it)", 4)
 	r.Rule("R28d", "indexes taken from state that survives a call are guarded against the length of what they index", 2)
 
@@ -193,7 +200,6 @@ var c28Preconditions = map[string]string{
 	"interp.HandlerCtx":       "documented API precondition for handler authors: the context must be the one the interpreter passed to the handler",
 	"expand.(listEnviron).Each": "construction invariant: listEnviron_ drops every pair without an equal sign before the list is stored (C34 R34c checks that loop)",
 	"interp.(tracer).expr":      "Printer.Print fails only for an unsupported root node type, for Minify with SingleLine, or when the writer fails; the tracer prints parser-built assignments, words and commands with a default printer into a bytes.Buffer (read)",
-	"interp.(Runner).assignVal": "value invariant: the previous value handed in comes from lookupVar/Resolve, which never yields the pseudo-kind KeepValue and resolves name references first; not a shape fact, listed",
 }
 
 func checkPanicsC28(p *Prog, r *Result, g *refGraph, pkg *packages.Package, rel string, fd *ast.FuncDecl) {
@@ -516,6 +522,22 @@ func exhaustiveSwitchPanic(p *Prog, info *types.Info, g *refGraph, fd *ast.FuncD
 				}
 				missing = still
 			}
+		}
+		// pseudo-values that every environment store replaces before anything is kept (expand.KeepValue)
+		if len(missing) > 0 {
+			var still []string
+			var gone []string
+			for _, nm := range missing {
+				if pseudoKindEliminated(p, consts[nm]) {
+					gone = append(gone, nm)
+				} else {
+					still = append(still, nm)
+				}
+			}
+			if len(still) == 0 {
+				return fmt.Sprintf("default of a switch covering every value of %s a stored variable can have (%s is replaced by the previous kind in every WriteEnviron.Set of package interp before the variable is stored)", tt.Obj().Name(), strings.Join(gone, ", ")), true, true
+			}
+			missing = still
 		}
 		if len(missing) > 0 {
 			if len(missing) > 6 {
@@ -1002,6 +1024,9 @@ func exitStatusInvariant(p *Prog, pkg *packages.Package) (string, bool) {
 		})
 		if bad != "" {
 			return bad, false
+		}
+		if why := codeOverwriteKeepsErr(p, info, fd, est, errF, codeF); why != "" {
+			return why, false
 		}
 	}
 	if nErr == 0 {
@@ -2338,6 +2363,12 @@ func checkShiftsAndDivisions(p *Prog, r *Result, pkg *packages.Package, rel stri
 }
 
 var c28Controls = []Control{
+	{Name: "unescape-reads-past-the-end", Rule: "R28j", WantKey: "wordField#s[i + 1]", File: "expand/expand.go",
+		Mutate: ctlReplaceAnywhere("if b == '\\\\' && i+1 < len(s) {\n\t\t\t\t\t\tswitch s[i+1] {", "if b == '\\\\' {\n\t\t\t\t\t\tswitch s[i+1] {")},
+	{Name: "append-switch-forgets-nameref", Rule: "R28b", WantKey: "assignVal#panic", File: "interp/vars.go",
+		Mutate: ctlReplaceAnywhere("\t\tcase expand.NameRef:\n\t\t\t// A name reference which did not resolve, such as an empty one;\n\t\t\t// it holds no value to append to.\n", "")},
+	{Name: "environment-stores-keepvalue", Rule: "R28b", WantKey: "assignVal#panic", File: "interp/vars.go",
+		Mutate: ctlReplaceAnywhere("\tif vr.Kind == expand.KeepValue {\n\t\tvr.Kind = prev.Kind\n", "\tif vr.Kind == expand.KeepValue && prev.IsSet() {\n\t\tvr.Kind = prev.Kind\n")},
 	{Name: "array-assign-keeps-stale-indexes", Rule: "R28h", WantKey: "assignVal#prev.List replaced", File: "interp/vars.go",
 		Mutate: ctlReplaceAnywhere("\tprev.Kind = expand.Indexed\n\tprev.List = list\n\tprev.Indexes = indexes\n\treturn name, prev\n", "\tprev.Kind = expand.Indexed\n\tprev.List = list\n\treturn name, prev\n")},
 	{Name: "new-leaves-stdout-nil-for-options", Rule: "R28g", WantKey: "Runner.stdout", File: "interp/api.go",
@@ -2364,4 +2395,341 @@ var c28Controls = []Control{
 		Mutate: ctlReplaceAnywhere("\tcase syntax.TsGtr:\n\t\treturn atoi(x) > atoi(y)\n", "")},
 	{Name: "new-unchecked-assertion", Rule: "R28a", WantKey: "stmtSync", File: "interp/runner.go",
 		Mutate: ctlReplaceAnywhere("func (r *Runner) stmtSync(ctx context.Context, st *syntax.Stmt) {\n", "func (r *Runner) stmtSync(ctx context.Context, st *syntax.Stmt) {\n\tif st.Negated {\n\t\t_ = st.Cmd.(*syntax.CallExpr)\n\t}\n")},
+}
+
+
+// pseudoKindEliminated: the constant is a value of expand.ValueKind, and every implementation of expand.WriteEnviron.Set
+// in package interp that stores into a map of its receiver begins — before any such store — with
+// `if vr.Kind == K { vr.Kind = <something else>; … }` on its variable parameter. Variables read back from such an
+// environment therefore never have that kind.
+func pseudoKindEliminated(p *Prog, k constant.Value) bool {
+	pkg := p.Pkg("interp")
+	exp := p.Pkg("expand")
+	if pkg == nil || exp == nil {
+		return false
+	}
+	vk := lookupType(exp, "ValueKind")
+	wi := lookupType(exp, "WriteEnviron")
+	if vk == nil || wi == nil {
+		return false
+	}
+	ifc, _ := wi.Underlying().(*types.Interface)
+	info := pkg.TypesInfo
+	found := 0
+	for _, fd := range p.AllFuncDecls("interp") {
+		if fd.Name.Name != "Set" || fd.Recv == nil || fd.Body == nil {
+			continue
+		}
+		fo, _ := info.Defs[fd.Name].(*types.Func)
+		if fo == nil || ifc == nil {
+			continue
+		}
+		rt := fo.Type().(*types.Signature).Recv().Type()
+		if !types.Implements(rt, ifc) && !types.Implements(types.NewPointer(rt), ifc) {
+			continue
+		}
+		// stores into receiver maps
+		var stores []ast.Node
+		var norm *ast.IfStmt
+		ast.Inspect(fd.Body, func(n ast.Node) bool {
+			switch x := n.(type) {
+			case *ast.AssignStmt:
+				for _, l := range x.Lhs {
+					if ix, ok := ast.Unparen(l).(*ast.IndexExpr); ok {
+						if _, isMap := info.TypeOf(ix.X).Underlying().(*types.Map); isMap {
+							stores = append(stores, x)
+						}
+					}
+				}
+			case *ast.IfStmt:
+				b, ok := ast.Unparen(x.Cond).(*ast.BinaryExpr)
+				if !ok || b.Op != token.EQL {
+					return true
+				}
+				tv, ok := info.Types[b.Y]
+				if !ok || tv.Value == nil || namedOf(tv.Type) != vk || tv.Value.ExactString() != k.ExactString() {
+					return true
+				}
+				lhs := exprString(b.X)
+				for _, st := range x.Body.List {
+					if as, ok := st.(*ast.AssignStmt); ok && len(as.Lhs) == 1 && exprString(as.Lhs[0]) == lhs {
+						if tv2, ok := info.Types[as.Rhs[0]]; !ok || tv2.Value == nil {
+							norm = x
+						}
+					}
+				}
+			}
+			return true
+		})
+		if len(stores) == 0 {
+			continue // delegates (expandEnv.Set hands over to the runner's environment)
+		}
+		if norm == nil {
+			return false
+		}
+		for _, st := range stores {
+			if st.Pos() < norm.End() {
+				return false
+			}
+		}
+		found++
+	}
+	return found > 0
+}
+
+
+// codeOverwriteKeepsErr: a store `X.code = v` with a value that may be zero is only sound while X.err is nil.
+// For a local X of type exitStatus a forward dataflow tracks "err may be set": clean at its declaration and after
+// `X = exitStatus{}` or `X.err = nil`; dirty after `X = <another status>` (r.lastExit, r.exit, a call result), after
+// `X.err = e`, and after X is handed to code by address or has a method called on it. For anything else (a receiver, a
+// field) the store must sit next to a store of X.err in the same block. A value tested non-zero on the way, or a closure
+// parameter that every call sets to a non-zero constant, needs nothing.
+func codeOverwriteKeepsErr(p *Prog, info *types.Info, fd *ast.FuncDecl, est *types.Named, errF, codeF *types.Var) string {
+	type storeSite struct {
+		as   *ast.AssignStmt
+		lhs  ast.Expr
+		rhs  ast.Expr
+		lits []*ast.FuncLit
+	}
+	var sites []storeSite
+	var lits []*ast.FuncLit
+	var walk func(n ast.Node)
+	walk = func(n ast.Node) {
+		ast.Inspect(n, func(m ast.Node) bool {
+			switch x := m.(type) {
+			case *ast.FuncLit:
+				if x != n {
+					lits = append(lits, x)
+					walk(x)
+					lits = lits[:len(lits)-1]
+					return false
+				}
+			case *ast.AssignStmt:
+				for i, l := range x.Lhs {
+					if selectorField(info, l) == codeF && i < len(x.Rhs) {
+						if tv := info.Types[x.Rhs[i]]; tv.Value == nil {
+							sites = append(sites, storeSite{x, l, x.Rhs[i], append([]*ast.FuncLit(nil), lits...)})
+						}
+					}
+				}
+			}
+			return true
+		})
+	}
+	walk(fd.Body)
+	if len(sites) == 0 {
+		return ""
+	}
+	var g *FGraph
+	isZeroLit := func(e ast.Expr) bool {
+		cl, ok := ast.Unparen(e).(*ast.CompositeLit)
+		if !ok {
+			return false
+		}
+		for _, el := range cl.Elts {
+			if kv, ok := el.(*ast.KeyValueExpr); ok {
+				if k, ok := kv.Key.(*ast.Ident); ok && k.Name == "err" && !isNilIdent(info, kv.Value) {
+					return false
+				}
+			} else {
+				return false
+			}
+		}
+		return true
+	}
+	flows := map[*types.Var]*flowResult[bool]{}
+	dirtyAt := func(v *types.Var, at ast.Node) (dirty, reached bool) {
+		if g == nil {
+			g = NewFGraph(info, fd.Body, nil)
+		}
+		res := flows[v]
+		if res == nil {
+			res = runForward(g, flowSpec[bool]{
+				Init:  false,
+				Join:  func(a, b bool) bool { return a || b },
+				Equal: func(a, b bool) bool { return a == b },
+				Node: func(dirty bool, n ast.Node) bool {
+					inspectNoLit(n, func(m ast.Node) bool {
+						switch x := m.(type) {
+						case *ast.AssignStmt:
+							for i, l := range x.Lhs {
+								if lid, ok := ast.Unparen(l).(*ast.Ident); ok && info.ObjectOf(lid) == v {
+									if len(x.Rhs) == len(x.Lhs) {
+										dirty = !isZeroLit(x.Rhs[i])
+									} else {
+										dirty = true
+									}
+								}
+								if selectorField(info, l) == errF {
+									if sid, ok := ast.Unparen(ast.Unparen(l).(*ast.SelectorExpr).X).(*ast.Ident); ok && info.ObjectOf(sid) == v && i < len(x.Rhs) {
+										dirty = !isNilIdent(info, x.Rhs[i])
+									}
+								}
+							}
+						case *ast.CallExpr:
+							if sel, ok := ast.Unparen(x.Fun).(*ast.SelectorExpr); ok {
+								if sid, ok := ast.Unparen(sel.X).(*ast.Ident); ok && info.ObjectOf(sid) == v {
+									if fn := calleeOf(info, x); fn != nil && fn.Type().(*types.Signature).Recv() != nil {
+										if _, ptr := fn.Type().(*types.Signature).Recv().Type().(*types.Pointer); ptr && fn.Name() != "clear" && fn.Name() != "ok" {
+											dirty = true
+										}
+									}
+								}
+							}
+							for _, a := range x.Args {
+								if u, ok := ast.Unparen(a).(*ast.UnaryExpr); ok && u.Op == token.AND {
+									if sid, ok := ast.Unparen(u.X).(*ast.Ident); ok && info.ObjectOf(sid) == v {
+										dirty = true
+									}
+								}
+							}
+						}
+						return true
+					})
+					return dirty
+				},
+			})
+			flows[v] = res
+		}
+		blk, idx := g.BlockOf(at)
+		if blk == nil {
+			return true, true
+		}
+		return res.At(blk, idx)
+	}
+	localStatus := func(base ast.Expr) *types.Var {
+		bid, ok := ast.Unparen(base).(*ast.Ident)
+		if !ok {
+			return nil
+		}
+		v, _ := info.ObjectOf(bid).(*types.Var)
+		if v == nil || namedOf(v.Type()) != est || v.Kind() == types.ParamVar || v.Kind() == types.RecvVar {
+			return nil
+		}
+		if _, isPtr := v.Type().(*types.Pointer); isPtr {
+			return nil
+		}
+		return v
+	}
+	for _, st := range sites {
+		base := ast.Unparen(st.lhs).(*ast.SelectorExpr).X
+		// (1) value proven non-zero: closure parameter with constant non-zero arguments at every call
+		if id, ok := stripConv(info, st.rhs).(*ast.Ident); ok && len(st.lits) > 0 {
+			lit := st.lits[len(st.lits)-1]
+			pidx := -1
+			i := 0
+			for _, f := range lit.Type.Params.List {
+				for _, nm := range f.Names {
+					if info.Defs[nm] == info.ObjectOf(id) {
+						pidx = i
+					}
+					i++
+				}
+			}
+			if pidx >= 0 {
+				// the variable the literal is bound to
+				var bound types.Object
+				ast.Inspect(fd.Body, func(m ast.Node) bool {
+					if as, ok := m.(*ast.AssignStmt); ok && len(as.Lhs) == 1 && len(as.Rhs) == 1 && ast.Unparen(as.Rhs[0]) == lit {
+						if lid, ok := as.Lhs[0].(*ast.Ident); ok {
+							bound = info.ObjectOf(lid)
+						}
+					}
+					return true
+				})
+				allNonZero, calls := bound != nil, 0
+				capt := localStatus(base)
+				inspectNoLit(fd.Body, func(m ast.Node) bool {
+					if c, ok := m.(*ast.CallExpr); ok {
+						if cid, ok := ast.Unparen(c.Fun).(*ast.Ident); ok && bound != nil && info.ObjectOf(cid) == bound {
+							calls++
+							if pidx >= len(c.Args) {
+								allNonZero = false
+							} else if tv := info.Types[c.Args[pidx]]; tv.Value == nil || tv.Value.String() == "0" {
+								// a possibly zero code: fine where the captured status cannot carry an err yet
+								if capt == nil {
+									allNonZero = false
+								} else if dirty, reached := dirtyAt(capt, c); reached && dirty {
+									allNonZero = false
+								}
+							}
+						}
+					}
+					return true
+				})
+				if allNonZero && calls > 0 {
+					continue
+				}
+				if os.Getenv("SHCHECK_DEBUG") != "" {
+					fmt.Fprintln(os.Stderr, "debug codeOverwrite:", fd.Name.Name, "pidx", pidx, "bound", bound, "allNonZero", allNonZero, "calls", calls)
+				}
+			}
+		}
+		if len(st.lits) > 0 {
+			return fmt.Sprintf("%s stores a possibly zero exitStatus.code inside a function literal at %s: whether err is nil there cannot be tracked", fd.Name.Name, p.Position(st.as.Pos()))
+		}
+		if g == nil {
+			g = NewFGraph(info, fd.Body, nil)
+		}
+		blk, _ := g.BlockOf(st.as)
+		if blk == nil {
+			return fmt.Sprintf("%s: store of exitStatus.code at %s not found in the flow graph", fd.Name.Name, p.Position(st.as.Pos()))
+		}
+		// (2) same block stores X.err
+		sameBlockErr := false
+		for _, n := range blk.Nodes {
+			if as, ok := n.(*ast.AssignStmt); ok {
+				for _, l := range as.Lhs {
+					if selectorField(info, l) == errF && exprString(ast.Unparen(l).(*ast.SelectorExpr).X) == exprString(base) {
+						sameBlockErr = true
+					}
+				}
+			}
+		}
+		if sameBlockErr {
+			continue
+		}
+		// (3) value tested non-zero on the way
+		if id, ok := stripConv(info, st.rhs).(*ast.Ident); ok {
+			o := info.ObjectOf(id)
+			if underEdges(g, blk, func(e *FEdge) bool {
+				be, ok := e.Cond.(*ast.BinaryExpr)
+				if !ok || exprString(be.Y) != "0" {
+					return false
+				}
+				bid, ok := ast.Unparen(be.X).(*ast.Ident)
+				return ok && info.ObjectOf(bid) == o && ((be.Op == token.NEQ && e.Pol) || (be.Op == token.EQL && !e.Pol))
+			}) {
+				continue
+			}
+		}
+		// (4) a local exitStatus whose err is nil here
+		v := localStatus(base)
+		if v == nil {
+			return fmt.Sprintf("%s stores a possibly zero code into %s at %s, which is not a local exitStatus value and has no store of its err next to it: an error kept from earlier would be left with a zero code (Run panics on that)", fd.Name.Name, exprString(base), p.Position(st.as.Pos()))
+		}
+		if dirty, reached := dirtyAt(v, st.as); reached && dirty {
+			return fmt.Sprintf("%s overwrites %s.code with a value that may be zero at %s while %s may still carry an err copied from another status: err != nil with code == 0 makes Run panic (`exit 0` after a failed external command)", fd.Name.Name, v.Name(), p.Position(st.as.Pos()), v.Name())
+		}
+	}
+	return ""
+}
+
+
+// c28IndexExceptions: constant-offset indexes in expand, pattern and interp that rest on an invariant the rule does not see.
+var c28IndexExceptions = map[string]string{
+	"expand.(Config).glob#matches": "matches is the one-element literal []string{\"\"} at this point",
+	"expand.(Config).glob#parts": "pathSplit returns the result of strings.Split, which has at least one element",
+	"expand.(Config).replaceElems#loc": "findAllIndex returns regexp match locations, which are two-element slices",
+	"expand.ReadFields#fpos": "infield is only true after a field was appended to fpos",
+	"expand.ReadFields#runes": "the loop condition has hi > fpos[last].end, and end is never negative here, so hi >= 1",
+	"expand.bracesSeqRec#br.Elems": "a BraceExp with Sequence set is only built by syntax.SplitBraces, with two or three elements",
+	"expand.bracesSeqRec#fromLit": "SplitBraces marks a sequence only when both endpoints are non-empty literals (numbers or single letters); probed with {a..}, {..b}, {1..}",
+	"expand.bracesSeqRec#toLit": "as for fromLit",
+	"interp.(HandlerContext).Builtin#args": "documented API: called from an ExecHandlerFunc with the arguments it was given, which are never empty",
+	"interp.(Runner).builtin#delim": "an empty delimiter was replaced by \"\\x00\" a few lines above",
+	"interp.(Runner).call#args": "documented precondition of CallHandlerFunc (\"returning an empty slice without an error is not supported\"); without a handler the caller checked len(fields) > 0",
+	"interp.(Runner).cmd#cm.Args": "reached only when the expanded fields are non-empty, which needs at least one word in cm.Args",
+	"interp.(flagParser).flag#p.remaining": "flag() is only called in `for fp.more()` loops; more() returns true only with a pending flag or a non-empty remaining list",
+	"interp.runScriptENOEXEC#args": "the arguments of an ExecHandlerFunc are never empty (documented)",
 }
